@@ -5,6 +5,7 @@ package zzverif
 
 import (
 	"fmt"
+	"io"
 	"reflect"
 
 	"github.com/cockroachdb/redact"
@@ -100,6 +101,16 @@ func c05Leaf(k int, su, ss string, regMode int) (interface{}, interface{}) {
 			return (*regInt)(nil), (*regInt)(nil)
 		}
 		return (*regInt)(nil), blankLeaf{}
+	case 17:
+		// under Safe(): a concretely typed pre-redactable field (all safe
+		// text) followed by further leaves: everything stays visible
+		return redact.Safe(c05RedStruct{"r", ss, "q", 7}), c05PlainStruct{"r", ss, "q", 7}
+	case 18:
+		// the same under Unsafe(): everything enveloped
+		return redact.Unsafe(c05RedStruct{"r", su, "q", 7}), blankLeaf{}
+	case 19:
+		// a SafeFormatter that emits unsafe data with io.WriteString / WriteString on the printer
+		return c05SFWS{su}, c05SFWSPlain{}
 	case 16:
 		// a pointer whose type is a SafeValue: its address is safe text
 		// (same pointer on both sides; used with %p formats)
@@ -115,6 +126,38 @@ func c05Leaf(k int, su, ss string, regMode int) (interface{}, interface{}) {
 }
 
 var c05Formats = []string{"x‹%v y%v|%v", "%5v|%-7v|%05v", "%6v %v %-3v|", "%.1v %v %+v", "%v%v%v", "%p|%v|%v", "%20p|%v %v", "%[1]p %[2]v %[3]v"}
+
+type c05RedStruct struct {
+	R  redact.RedactableString
+	S  string
+	RB redact.RedactableString
+	N  int
+}
+
+// fmt twin (a RedactableBytes field is not used: nested under Safe() inside a
+// container it is printed by the standard fmt, as a byte list)
+type c05PlainStruct struct {
+	R  string
+	S  string
+	RB string
+	N  int
+}
+
+type c05SFWS struct{ s string }
+
+func (x c05SFWS) SafeFormat(p redact.SafePrinter, verb rune) {
+	p.SafeString("ws:")
+	io.WriteString(p, x.s)
+	p.SafeString(";")
+	if sw, ok := p.(io.StringWriter); ok {
+		sw.WriteString(x.s)
+	}
+	p.SafeString(".")
+}
+
+type c05SFWSPlain struct{}
+
+func (c05SFWSPlain) Format(st fmt.State, verb rune) { st.Write([]byte("ws:;.")) }
 
 type safePtrT struct{ a int }
 
